@@ -79,6 +79,8 @@ type Options struct {
 	DynCacheLag func() int64
 	// CachedHideYoung: objects created within the last n commits are invisible to the manager's cached client.
 	CachedHideYoung func() int64
+	// CachedHideYoungKind: per-kind override of CachedHideYoung (negative = no override).
+	CachedHideYoungKind func(kind string) int64
 	// Controllers to build (nil = the ObjectSet family).
 	Controllers []string
 	// Extra is used by packages of the harness that add controllers (packages, templates).
@@ -179,7 +181,16 @@ func (w *World) Build() {
 		}
 	}
 	o.CachedLag, o.CachedHideYoung, o.DynCacheLag = wrap(o.CachedLag), wrap(o.CachedHideYoung), wrap(o.DynCacheLag)
-	w.Cached = w.Store.Client(Scheme, simkube.Role{Name: "cached", Lag: o.CachedLag, HideYoung: o.CachedHideYoung, ResetOnRead: true})
+	var hideKind func(string) int64
+	if o.CachedHideYoungKind != nil {
+		hideKind = func(kind string) int64 {
+			if w.Fresh {
+				return 0
+			}
+			return o.CachedHideYoungKind(kind)
+		}
+	}
+	w.Cached = w.Store.Client(Scheme, simkube.Role{Name: "cached", Lag: o.CachedLag, HideYoung: o.CachedHideYoung, HideYoungKind: hideKind, ResetOnRead: true})
 	w.Uncached = w.Store.Client(Scheme, simkube.Role{Name: "uncached"})
 	w.CacheMap = simcache.NewMap(func(gvk schema.GroupVersionKind) client.Reader {
 		return w.Store.Client(Scheme, simkube.Role{Name: "dyncache", Lag: o.DynCacheLag, Selector: cacheSelector})
